@@ -445,6 +445,7 @@ diskdump_read_page(struct page_io *pio)
 					 "Wrong uncompressed size: %lu",
 					 (unsigned long) retlen);
 #else
+		fcache_put_chunk(&fch);
 		return set_error(ctx, KDUMP_ERR_NOTIMPL,
 				 "Unsupported compression method: %s",
 				 "lzo");
@@ -465,6 +466,7 @@ diskdump_read_page(struct page_io *pio)
 					 "Wrong uncompressed size: %lu",
 					 (unsigned long) retlen);
 #else
+		fcache_put_chunk(&fch);
 		return set_error(ctx, KDUMP_ERR_NOTIMPL,
 				 "Unsupported compression method: %s",
 				 "snappy");
@@ -483,6 +485,7 @@ diskdump_read_page(struct page_io *pio)
 			return set_error(ctx, KDUMP_ERR_CORRUPT,
 					 "Wrong uncompressed size: %zu", ret);
 #else
+		fcache_put_chunk(&fch);
 		return set_error(ctx, KDUMP_ERR_NOTIMPL,
 				 "Unsupported compression method: %s",
 				 "zstd");
